@@ -133,7 +133,9 @@ def run(ctx, res):
 
 def compile_expression_pass(ctx, res, jinja2, trees, srcs, rng):
     """compile_expression(src)(**data) must be the value itself (not its text)"""
-    env = jinja2.Environment()
+    from jinja2.sandbox import SandboxedEnvironment
+    envs = [("default", jinja2.Environment()), ("async", jinja2.Environment(enable_async=True)),
+            ("sandboxed", SandboxedEnvironment()), ("unoptimized", jinja2.Environment(optimized=False))]
     v = X.Variant(jinja2)
     k = ctx.pick(400, 3000)
     reqs, jobs = [], []
@@ -144,24 +146,27 @@ def compile_expression_pass(ctx, res, jinja2, trees, srcs, rng):
         jobs.append((tree, src, data))
     reps = core.driver_batch(reqs)
     n = 0
-    for (tree, src, data), rep in zip(jobs, reps):
+    for i, ((tree, src, data), rep) in enumerate(zip(jobs, reps)):
         want, _ = X.model_result(rep, "value")
         if want == ("err", "oom"):
             continue
-        try:
-            val = env.compile_expression(src, undefined_to_none=False)(**data)
-            got = ("ok", X.canon(X.val_sx(jinja2, val)))
-        except ValueError:
-            continue
-        except Exception as e:  # noqa
-            name = type(e).__name__
-            got = ("err", X.ERRMAP.get(name, "other:" + name))
         if want[0] == "ok":
             want = ("ok", X.canon(want[1]))
-        n += 1
-        if got != want:
-            res.violate(f"C02:compile_expression:{tree[0]}", f"compile_expression({src!r}) gives {got!r}; documented semantics give {want!r}",
-                        {"src": src, "tree": core.sx(tree), "data": {k2: repr(x) for k2, x in data.items()}})
+        # the default environment always, one of the others in rotation (async: fixed by /repo aa550d1)
+        for ename, env in (envs[0], envs[1 + i % 3]):
+            try:
+                val = env.compile_expression(src, undefined_to_none=False)(**data)
+                got = ("ok", X.canon(X.val_sx(jinja2, val)))
+            except ValueError:
+                continue
+            except Exception as e:  # noqa
+                name = type(e).__name__
+                got = ("err", X.ERRMAP.get(name, "other:" + name))
+            n += 1
+            if got != want:
+                res.violate(f"C02:compile_expression:{ename}:{tree[0]}" if ename != "default" else f"C02:compile_expression:{tree[0]}",
+                            f"compile_expression({src!r}) in the {ename} environment gives {got!r}; documented semantics give {want!r}",
+                            {"src": src, "tree": core.sx(tree), "env": ename, "data": {k2: repr(x) for k2, x in data.items()}})
     return n
 
 
